@@ -249,6 +249,9 @@ func allWireTypes() []wireType {
 	for _, o := range genRhp4Objects {
 		out = append(out, wireType{o.name, reflect.TypeOf(o.mk()).Elem()})
 	}
+	for _, t := range genGatewayCodecs {
+		out = append(out, wireType{t.name, t.typ})
+	}
 	return out
 }
 
@@ -327,7 +330,8 @@ func recodable() map[string]bool {
 	return out
 }
 
-var needsState = map[string]bool{"types.V2TransactionsMultiproof": true, "types.V2BlockData": true, "types.V2Block": true}
+var needsState = map[string]bool{"types.V2TransactionsMultiproof": true, "types.V2BlockData": true, "types.V2Block": true,
+	"gateway.RPCSendCheckpoint#response": true, "gateway.RPCSendV2Blocks#response": true, "gateway.RPCRelayV2BlockOutline#request": true}
 
 func runC11(r *Run) {
 	for i := 0; i < r.pick(30, 800); i++ {
